@@ -5,9 +5,29 @@
    fb = balanced secondary repeats the confirmation (C15-balanced-duplicate-no-ack), fc_ = a request is repeated
    with its own function code (C15-class1-repeated-as-class2).  Theorems named _refuted are about the original code. *)
 From Coq Require Import ZArith List Bool.
-From L60870 Require Import Link.Ft12 Link.LinkSec Link.LinkPrim Link.LinkProofs.
+From L60870 Require Import Link.Ft12 Link.LinkSec Link.LinkPrim Link.LinkProofs Link.LinkHist.
 Import ListNotations.
 Local Open Scope Z_scope.
+
+(* ---------------- history level (induction over ALL sequences of received frames, clock values, queued data and -- for
+   the unbalanced primary -- application requests): FNew b = a step that took the machine from AVAILABLE into a
+   SEND/CONFIRM or REQUEST/RESPOND exchange and wrote a frame with FCV=1, FCB=b; FReset = RESET REMOTE LINK written.
+   log_ok: consecutive new frames alternate; the first new frame after a reset (and after power-up) carries 1.
+   Retransmissions are not new frames (they happen inside the exchange) and are covered by the _identical theorems. *)
+Theorem C15_history_balanced : forall v c dir evs p prev, fa v = true -> linked prev p -> log_ok prev (pb_log v c dir p evs).
+Proof. exact pb_history_fcb. Qed.
+Theorem C15_history_balanced_from_power_up : forall v c dir other idle evs, fa v = true ->
+  log_ok (Some FReset) (pb_log v c dir (pb_init other idle) evs).
+Proof. exact pb_history_from_init. Qed.
+Theorem C15_history_unbalanced : forall v c evs s prev, fa v = true -> linked_sc prev s -> log_ok prev (sc_log v c s evs).
+Proof. exact sc_history_fcb. Qed.
+Theorem C15_history_unbalanced_from_power_up : forall v c a evs, fa v = true -> log_ok (Some FReset) (sc_log v c (sc_init a) evs).
+Proof. exact sc_history_from_init. Qed.
+Theorem C15_new_frame_octets_balanced : forall v c now dir p q b,
+  classify p (fst (fst (pb_run v c now dir p q))) = Some (FNew b) ->
+  snd (pb_run v c now dir p q) = [OTx (enc_fixed (alen c) 2 (pb_other p) true dir b true)] \/
+  exists d, snd (pb_run v c now dir p q) = tx_opt (enc_var (alen c) 3 (pb_other p) true dir b true d).
+Proof. exact pb_new_frame_octets. Qed.
 
 (* ---------------- primary, balanced *)
 Theorem C15_toggle_balanced : forall v c now dir p d rest,
